@@ -271,7 +271,7 @@ fn run(ctx: &mut Ctx) {
     ));
     // (3) random multi-flip histories on random longer documents
     let mut r = ctx.rng(4);
-    let n = ctx.scaled(t.pick(150_000, 3_000_000)) / ctx.nshards as u64;
+    let n = ctx.scaled(t.pick(1_000_000, 10_000_000)) / ctx.nshards as u64;
     for _ in 0..n {
         let doc = random_doc(&mut r);
         let base = setting_bits(r.below(16) as u8);
